@@ -172,6 +172,91 @@ def gen_lhs(rng, xs, w):
     return e
 
 
+# ---- directed shapes: every balancer arm that removes an operator does so under a side condition on known-zero bits of the operand
+# and on the bits of the other side.  Two layers (inner establishes known bits, outer is the arm), then ALL ten comparisons against
+# constants around the alignment the arm cares about (k*2^n, k*2^n +- 1) and uniform ones: "shifted comparisons with unaligned constants".
+LAYERS = ["and_low", "and_high", "and_any", "zext", "concat0", "concatc", "sext", "shl", "lshr", "extract", "extract0", "ashr", "or_low"]
+ZERO_HIGH = ["and_low", "zext", "concat0", "lshr"]          # layers whose result has known-zero high bits
+ZERO_LOW = ["and_high", "concatc", "shl"]                   # ... known-zero low bits
+
+
+def layer(rng, e, kind, amount=None):
+    """-> (expression, n) where n is the number of bits the layer moves / masks (used to pick constants)"""
+    import claripy
+    w = e.size()
+    n = amount if amount is not None else rng.randrange(1, max(2, w))
+    n = max(1, min(n, max(1, w - 1)))
+    if kind == "and_low":
+        return e & claripy.BVV((1 << n) - 1, w), n
+    if kind == "and_high":
+        return e & claripy.BVV(((1 << w) - 1) ^ ((1 << n) - 1), w), n
+    if kind == "and_any":
+        return e & claripy.BVV(rng.randrange(1 << w), w), n
+    if kind == "or_low":
+        return e | claripy.BVV((1 << n) - 1, w), n
+    if kind == "zext":
+        n = min(n, 3)
+        return e.zero_extend(n), n
+    if kind == "sext":
+        n = min(n, 3)
+        return e.sign_extend(n), n
+    if kind == "concat0":
+        n = min(n, 3)
+        return claripy.Concat(claripy.BVV(0, n), e), n
+    if kind == "concatc":
+        n = min(n, 3)
+        return claripy.Concat(e, claripy.BVV(0 if rng.random() < 0.7 else rng.randrange(1 << n), n)), n
+    if kind == "shl":
+        n = rng.randrange(0, w + 1) if amount is None and rng.random() < 0.2 else n
+        return e << n, n
+    if kind == "lshr":
+        return claripy.LShR(e, n), n
+    if kind == "ashr":
+        return e >> n, n
+    if kind == "extract" and w > 1:
+        lo = rng.randrange(0, w); hi = rng.randrange(lo, w)
+        if amount is not None:          # keep the low part / drop `amount` low bits
+            lo, hi = rng.choice([(0, w - 1 - n), (n, w - 1), (0, max(0, n - 1))])
+        return e[hi:lo], max(lo, 1)
+    if kind == "extract0" and w > 1:
+        return e[w - 1 - n:0], n
+    return e, n
+
+
+def gen_layered(rng, xs):
+    """-> list of constraints: one two-layer shape, all ten comparisons, constants around the alignment and uniform"""
+    import claripy
+    x = rng.choice(xs)
+    outer = rng.choice(LAYERS)
+    n_out = rng.randrange(1, max(2, x.size()))
+    r = rng.random()
+    if r < 0.5:
+        # an inner layer that gives the outer arm its side condition (known-zero bits where the outer layer drops bits)
+        inner = rng.choice(ZERO_HIGH if outer in ("shl", "extract", "extract0", "zext", "concat0", "and_low") else ZERO_LOW + ZERO_HIGH)
+        e, _ = layer(rng, x, inner, amount=min(3, n_out + rng.choice([0, 0, 1])))
+    elif r < 0.85:
+        e, _ = layer(rng, x, rng.choice(LAYERS))
+    else:
+        e = x
+    if e.size() > 8:
+        e = x
+    lhs, n = layer(rng, e, outer, amount=min(n_out, e.size() - 1) if e.size() > 1 else None)
+    if rng.random() < 0.15 and lhs.size() <= 7:
+        lhs, n = layer(rng, lhs, rng.choice(LAYERS))
+    w = lhs.size()
+    if w > 10:
+        return []
+    m = (1 << w) - 1
+    k = rng.randrange(0, (m >> n) + 1) << n if n < w else 0
+    consts = {k & m, (k + 1) & m, (k - 1) & m, rng.randrange(1 << w), rng.randrange(1 << w), (k + (1 << max(0, n - 1))) & m}
+    out = []
+    for c in sorted(consts):
+        for op in CMPS:
+            rhs = claripy.BVV(c, w)
+            out.append(cmp_ast(op, lhs, rhs) if rng.random() < 0.9 else cmp_ast(op, rhs, lhs))
+    return out
+
+
 def gen_atom(rng, xs):
     import claripy
     lhs = gen_lhs(rng, xs, None)
@@ -338,6 +423,33 @@ def run(ctx):
         ctx.distinct(str(c))
         if r:
             fails[r[0]].append((len(str(c)), r[1], c, xs, annos))
+    # directed two-layer shapes (known-zero bits + arm), all comparisons, constants around the alignment
+    for i in range(ctx.pick(170, 4000)):
+        w = rng.choice([2, 3, 3, 4, 4, 4, 5])
+        x = claripy.BVS("l_%d" % i, w, explicit_name=True)
+        a = None
+        if rng.random() < 0.2:
+            a = vsa.rand_si(rng, w, p_unaligned=0.0)
+            x = x.annotate(StridedIntervalAnnotation(a[1], a[2], a[3]))
+        try:
+            cs = gen_layered(rng, [x])
+        except Exception as ex:  # noqa
+            stats["skipped_build_error:" + type(ex).__name__] += 1
+            continue
+        for c in cs:
+            ctx.count()
+            if not hasattr(c, "op") or c.op == "BoolV":
+                stats["folded_to_constant"] += 1
+                continue
+            r = check_constraint(c, [x], [a])
+            if r and r[0] == "skip":
+                stats["skipped:" + r[1]] += 1
+                continue
+            stats["checked"] += 1
+            stats["checked_layered"] += 1
+            ctx.distinct(str(c))
+            if r:
+                fails[r[0]].append((len(str(c)), r[1], c, [x], [a]))
     for sig, lst in sorted(fails.items()):
         ln, what, c, xs, annos = min(lst, key=lambda t: (t[0], t[1]))
         ctx.violation(sig, what + "  [%d case(s)]" % len(lst), {
